@@ -21,6 +21,28 @@ fn main() {
         vcheck::corpus::generate(std::path::Path::new(&dir));
         return;
     }
+    // `vcheck fresh-case C05`: one accounting history (JSON on stdin) as the very first thing this process does
+    // (the first-of-process part of C05 runs every case in a process of its own)
+    if args[0] == "fresh-case" {
+        use std::io::Read;
+        let mut text = String::new();
+        let _ = std::io::stdin().read_to_string(&mut text);
+        let case: vcheck::props::acct::Case = match serde_json::from_str(&text) {
+            Ok(c) => c,
+            Err(e) => {
+                println!("FRESH error {e}");
+                std::process::exit(2);
+            }
+        };
+        let mut obs = rt::Obs::default();
+        let r = std::panic::catch_unwind(std::panic::AssertUnwindSafe(|| vcheck::props::acct::check(&case, &mut obs, vcheck::props::acct::Which::C05)));
+        match r {
+            Ok(Ok(())) => println!("FRESH ok {}", serde_json::to_string(&obs.classes).unwrap_or_default()),
+            Ok(Err(v)) => println!("FRESH viol {}|{}", v.sig, v.msg.replace('\n', " ")),
+            Err(_) => println!("FRESH viol panic|the case panicked in a fresh process"),
+        }
+        return;
+    }
     // `vcheck e2e <uplink|relay|keepalive|reload|control|subscription> [n]`: run end-to-end scenarios directly (development aid)
     if args[0] == "e2e" {
         use vcheck::props::e2e::Phase;
